@@ -602,7 +602,16 @@ static void probe_ctl_quiet(void)
     for (int rd = 0; rd < rounds && ok; rd++) {
         n[rd] = vctl_connect_all(ctl_dir16, fds[rd], NULL, 8);
         if (n[rd] == 0) break;
-        owner_turns(15);
+        /* some of them also talk: a proper request (the answer is left unread), one of a type this library does not know, a runt */
+        bool talked = false;
+        if (rd < 2) for (int i = 0; i < n[rd]; i++) {
+            int w = (int)vrnd_n(&rng, 6);
+            if (w == 0) { vctl_send_get(fds[rd][i], "xcm.transport"); vobs("control_client_requests:get", 1); talked = true; }
+            else if (w == 1) { vctl_send_get_all(fds[rd][i]); vobs("control_client_requests:get-all", 1); talked = true; }
+            else if (w == 2) { struct ctl_proto_msg q; memset(&q, 0, sizeof q); q.type = 77 + (int)vrnd_n(&rng, 100); vctl_send_raw(fds[rd][i], &q, sizeof q); vobs("control_client_requests:unknown-type", 1); talked = true; }
+            else if (w == 3) { char q[24]; memset(q, 0x5a, sizeof q); vctl_send_raw(fds[rd][i], q, 1 + vrnd_n(&rng, sizeof q - 1)); vobs("control_client_requests:runt", 1); talked = true; }
+        }
+        owner_turns(talked ? 30 : 15);
         ok = all_quiet(rd < 2 ? "control clients attached" : "control clients attached and more queued", rd < 2 ? rd + 1 : 2, rd < 2 ? 0 : rd - 1);
     }
     if (n[0]) vobs("control_client_rounds", 1);
@@ -869,7 +878,7 @@ static void one_case(long idx, void *arg)
                     if (vviol_count() == 0 && c.ctl) probe_ctl_quiet();
                 }
             }
-            if (prop == PROP_C04 && vviol_count() == 0 && C->ep.s && !C->failed && C->peer && C->peer->ep.s && !C->peer->failed && vrnd_p(&rng, 40)) {
+            if (vviol_count() == 0 && C->ep.s && !C->failed && C->peer && C->peer->ep.s && !C->peer->failed && vrnd_p(&rng, prop == PROP_C04 ? 40 : 15)) {
                 bool client_blocked = vrnd_p(&rng, 50);
                 probe_backpressure(client_blocked ? C : C->peer, client_blocked ? C->peer : C);
             }
